@@ -24,6 +24,8 @@ type Index struct {
 	// Length of index vector; or 0 if index is scalar. VectorLen may be non-zero
 	// even if HasVal is false.
 	VectorLen uint64
+	// Scalable specifies whether the index vector is scalable (vscale x N).
+	Scalable bool
 }
 
 // NewIndex returns a new constant index with the given value.
@@ -48,6 +50,8 @@ func ResultType(elemType, src types.Type, indices []Index) types.Type {
 		addrSpace types.AddrSpace
 		// Length of vector of pointers result type; or 0 if pointer result type.
 		resultVectorLength uint64
+		// Scalability of vector of pointers result type.
+		resultScalable bool
 	)
 	// ref: https://llvm.org/docs/LangRef.html#getelementptr-instruction
 	//
@@ -62,6 +66,7 @@ func ResultType(elemType, src types.Type, indices []Index) types.Type {
 		}
 		addrSpace = vectorElemType.AddrSpace
 		resultVectorLength = src.Len
+		resultScalable = src.Scalable
 	default:
 		panic(fmt.Errorf("invalid gep source type; expected pointer or vector of pointers type, got %T", src))
 	}
@@ -83,6 +88,7 @@ func ResultType(elemType, src types.Type, indices []Index) types.Type {
 		}
 		if resultVectorLength == 0 && index.VectorLen != 0 {
 			resultVectorLength = index.VectorLen
+			resultScalable = index.Scalable
 		}
 		// ref: https://llvm.org/docs/GetElementPtr.html#why-is-the-extra-0-index-required
 		//
@@ -123,6 +129,7 @@ func ResultType(elemType, src types.Type, indices []Index) types.Type {
 	ptr.AddrSpace = addrSpace
 	if resultVectorLength != 0 {
 		vec := types.NewVector(resultVectorLength, ptr)
+		vec.Scalable = resultScalable
 		return vec
 	}
 	return ptr
